@@ -242,6 +242,52 @@ def foreign_scn(d, ttl_max, renew, action, ttl_min=1, wait_from=0, wait_to=None,
     d.reach()
 
 
+@meta(bounds="one BBMD with one simple node on its subnet and THREE foreign devices registered one after the other (TTL 60); one of "
+             "them (symbolic) is taken out - its table entry is deleted by Delete-Foreign-Device-Table-Entry, or it unregisters - "
+             "and after a symbolic wait (0..2 s for the deletion, grace + 1..2 s for the unregistration) the simple node "
+             "broadcasts and the table is read back: exactly the other two are served, each once, and listed",
+      outside="more than three foreign devices; several removals",
+      stubs=STUBS,
+      assumes=["grace = 30 s (J.5.2.3) is the upper bound the statement allows"])
+def foreign_trio(d, action):
+    w = World()
+    nets, nodes, bbmds, foreign = layout(1, 1, 3, True)
+    bb, simple = bbmds[0], nodes[1]
+    for f in foreign:
+        f.bip.register(bb.station, 60)
+        w.settle()
+        if f.bip.registrationStatus != 0:
+            raise Violation("registration-not-acknowledged", node=f.name, status=f.bip.registrationStatus)
+    j = d.index(3, 'removed')
+    gone = foreign[j]
+    if action == "delete":
+        simple.bip.sap_response = lambda pdu: None
+        simple.bip.sap_indication(DeleteForeignDeviceTableEntry(gone.station, destination=bb.station))
+        wait = d.int(0, 2, 'wait')
+    else:
+        gone.bip.unregister()
+        wait = GRACE + d.int(1, 2, 'wait')
+    w.run(duration=wait)
+    for f in foreign:
+        f.top.got = []
+    simple.broadcast(b"\x10\x08")
+    w.settle()
+    listed = fdt_listing(w, simple, bb)
+    if listed is None:
+        raise Violation("read-fdt-not-answered")
+    for k, f in enumerate(foreign):
+        served = len(f.top.got)
+        is_listed = any(a == bytes(f.station.addrAddr) for (a, t, r) in listed)
+        want = 0 if k == j else 1
+        if served != want:
+            raise Violation("trio-served", node=f.name, got=served, want=want, removed=j, action=action, wait=wait)
+        if is_listed != bool(want):
+            raise Violation("trio-listed", node=f.name, listed=is_listed, removed=j, action=action, wait=wait)
+    if len(listed) != 2:
+        raise Violation("trio-table-size", n=len(listed), removed=j, action=action)
+    d.reach()
+
+
 def instances(tier):
     q = tier == "quick"
     out = []
@@ -259,6 +305,8 @@ def instances(tier):
                 for reg in range(nsub):
                     out.append(Inst(bip_scn, dict(nsub=nsub, simple=2, nforeign=2, two_hop=two_hop, register_at=reg),
                                     budget=120, path_timeout=120))
+        for action in ("delete", "unregister"):
+            out.append(Inst(foreign_trio, dict(action=action), budget=150, path_timeout=120))
         out.append(Inst(foreign_scn, dict(ttl_max=2, renew=False, action="none"), budget=80, path_timeout=90))
         out.append(Inst(foreign_scn, dict(ttl_max=1, renew=True, action="none"), budget=80, path_timeout=90))
         # a time-to-live that does not divide the grace period: the device's own expiry tracking (TTL + 30) falls
@@ -283,6 +331,8 @@ def instances(tier):
                     out.append(Inst(bip_scn, dict(nsub=nsub, simple=2, nforeign=2, two_hop=two_hop, register_at=reg),
                                     budget=600, path_timeout=120))
         out.append(Inst(bip_scn, dict(nsub=3, simple=1, nforeign=3, two_hop=True), budget=600, path_timeout=120))
+        for action in ("delete", "unregister"):
+            out.append(Inst(foreign_trio, dict(action=action), budget=600, path_timeout=120))
         for renew in (False, True):
             out.append(Inst(foreign_scn, dict(ttl_max=8, renew=renew, action="none"), budget=900, path_timeout=120))
         out.append(Inst(foreign_scn, dict(ttl_min=7, ttl_max=7, renew=True, action="none", wait_from=30), budget=600,
